@@ -51,17 +51,17 @@ func ruleUniquePrefixMatch(c *eng.Ctx) {
 	// prefix test: strings comparison of the prefix with a slice of id.String()
 	isPrefix := func(v ssa.Value) bool {
 		for _, o := range eng.Origins(v, nil) {
-			if fv, ok := o.(*ssa.FreeVar); ok && fv.Name() == "prefix" {
+			if fv, ok := o.(*ssa.FreeVar); ok && eng.LogicalName(fv) == "prefix" {
 				return true
 			}
 			if ld, ok := o.(*ssa.UnOp); ok {
-				if fv, isFV := ld.X.(*ssa.FreeVar); isFV && fv.Name() == "prefix" {
+				if fv, isFV := ld.X.(*ssa.FreeVar); isFV && eng.LogicalName(fv) == "prefix" {
 					return true
 				}
 			}
 		}
 		if ld, ok := v.(*ssa.UnOp); ok {
-			if fv, isFV := ld.X.(*ssa.FreeVar); isFV && fv.Name() == "prefix" {
+			if fv, isFV := ld.X.(*ssa.FreeVar); isFV && eng.LogicalName(fv) == "prefix" {
 				return true
 			}
 		}
